@@ -358,12 +358,12 @@ OBLIGATIONS = [
        symbolic="status 31; meta length 0..1100, body length 0..3000, two cut offsets, offset at which the server stops "
                 "(anywhere incl. inside the header), clean close / reset, both protocol classes; relational against the single-read run",
        functions=FN, stubs=ST),
-    Ob("charset_labels", charset_labels, quick=400, thorough=1200,
+    Ob("charset_labels", charset_labels, quick=400, thorough=3600,
        symbolic="label index 0..%d, body index 0..3, protocol class" % (NLAB - 1), functions=FN, stubs=ST,
        note="discrete dimension"),
     Ob("charset_char", charset_char, quick=200, thorough=600,
        symbolic="1-character charset label, any ASCII code point", functions=FN, stubs=ST),
-    Ob("header_bytes", header_bytes, quick=400, thorough=1500,
+    Ob("header_bytes", header_bytes, quick=400, thorough=3600,
        symbolic="1 (quick) / 1..2 (thorough) unconstrained bytes at 3 header positions", functions=FN, stubs=ST),
     Ob("full_client", full_client, quick=300, thorough=900,
        symbolic="GeminiClient.get / upload / delete on the virtual-time loop: body length 0..2000, offset at which the server stops, "
